@@ -2,6 +2,7 @@ package config
 
 import (
 	"fmt"
+	"go/token"
 	"go/types"
 	"path/filepath"
 	"strings"
@@ -110,6 +111,13 @@ func parseConverter(ctx *context, rawConverter *RawConverter, global RawLines) (
 	}
 
 	resolveOutputPackage(ctx, c)
+
+	// extend functions were checked against the output package known when their line was read
+	for _, def := range c.Extend {
+		if !token.IsExported(def.Name) && def.Package != c.OutputPackagePath {
+			return nil, fmt.Errorf("error parsing 'goverter:extend' at\n    %s\n    %s\n\nerror parsing type:\n    func %s\n    [output package] %s\n\nmust be exported", c.Location, c.IDString(), def.ID, c.OutputPackagePath)
+		}
+	}
 
 	err = parseMethods(ctx, rawConverter, c)
 	return c, err
